@@ -155,7 +155,8 @@ def step (st : State) (w : List String) : State × String :=
       let acl := Set.new (if l.isEmpty then openList else l)
       let lo := boolStr (aclNext acl false Fam.v4 0x7f000001)
       let doh := String.join (ps.map fun (f, v) => boolStr (aclNext acl false f v))
-      (st, s!"udp={lo} tcp={lo} udpx={lo} doh={doh}")
+      let pipelined := if aclNext acl false Fam.v4 0x7f000001 then 3 else 0
+      (st, s!"udp={lo} tcp={lo} tcpp={pipelined} udpx={lo} doh={doh}")
     | _, _ => (st, "bad-op")
   | ["chain", "run", scs] =>
     match (scs.splitOn ";").mapM parseScript with
